@@ -127,6 +127,7 @@ class HProcessor(PartProcessor):
     def __init__(self, *a, wo=None, **kw):
         super().__init__(*a, **kw)
         self.wo_table = wo or {}
+        self.cost_calls = {}
         self.hub = None
 
     def get_work_order_capacity(self, tag):
@@ -136,7 +137,14 @@ class HProcessor(PartProcessor):
         return self.wo_table.get(tag, (0, 0, 0))[1]
 
     def get_work_order_cost(self, tag):
-        return self.wo_table.get(tag, (0, 0, 0))[2]
+        c = self.wo_table.get(tag, (0, 0, 0))[2]
+        if isinstance(c, (list, tuple)):          # a price that changes from order to order
+            n = self.cost_calls.get(tag, 0)
+            self.cost_calls[tag] = n + 1
+            c = c[n % len(c)]
+        if self.hub is not None:
+            self.hub.tlog.append(('wo_cost', self.name, tag, c))
+        return c
 
     def start_work(self, tag):
         if self.hub is not None:
@@ -281,7 +289,8 @@ class AutoRepair:
 
     def __call__(self, dev, is_failure, part):
         if is_failure:
-            mt = [a for a in self.devs.values() if isinstance(a, Maintainer)][0]
+            mts = [a for n, a in self.devs.items() if isinstance(a, Maintainer) and not n.endswith('_spare')]
+            mt = mts[-1]
             r = mt.create_work_order(dev, self.tag)
             self.hub.tlog.append(('wo_request', dev.name, self.tag, bool(r), mt.name))
 
@@ -301,8 +310,9 @@ class CycleByOrdinal:
             dev.cycle_time = self.cycles[i % len(self.cycles)]
         if self.offsets:
             off = self.offsets[i % len(self.offsets)]
-            if off:
-                dev.offset_next_cycle_time(off)
+            for o_ in (off if isinstance(off, (list, tuple)) else [off]):     # several calls for ONE cycle accumulate
+                if o_:
+                    dev.offset_next_cycle_time(o_)
 
 
 class AddValue:
@@ -320,6 +330,22 @@ class AddValue:
                 p.quality += self.dq
 
 
+class Rec:
+    '''A hashable but MUTABLE record (an ordinary user-defined class): sensors must store a copy of it too.'''
+
+    def __init__(self, v=0):
+        self.v = v
+
+    def __eq__(self, other):
+        return isinstance(other, Rec) and other.v == self.v
+
+    def __hash__(self):
+        return 17
+
+    def __repr__(self):
+        return f'Rec({self.v})'
+
+
 class SchedObj:
     '''Plain object registered with an ActionScheduler / probed by sensors.'''
 
@@ -327,6 +353,7 @@ class SchedObj:
         self.name = name
         self.x = [0]          # mutated IN PLACE by the 'bump' operation (sensors must have stored a copy)
         self.n = 0
+        self.r = Rec(0)       # mutated in place as well
         self.block_input = False
 
 
@@ -356,6 +383,22 @@ class OverrideAction:
         self.hub.tlog.append(('sched_action', sched.name, obj.name, time, new_state, 'override'))
 
 
+class CreatorAction:
+    '''Override action that, the first time it is invoked (the scheduler's start-up during the one-time initialisation
+    of the assets), creates further assets: an asset created from inside another asset's initialize().'''
+
+    def __init__(self, world, late_indices):
+        self.world = world
+        self.late = list(late_indices)
+        self.done = False
+
+    def __call__(self, sched, obj, time, new_state):
+        self.world.hub.tlog.append(('sched_action', sched.name, obj.name, time, new_state, 'override'))
+        if not self.done:
+            self.done = True
+            self.world.run_op(('create',) + tuple(self.late), direct=True)
+
+
 class SenseCallback:
     def __init__(self, hub, n):
         self.hub = hub
@@ -363,6 +406,11 @@ class SenseCallback:
 
     def __call__(self, sensor, time, values):
         import copy
+        lens = sorted(set(len(v) for v in sensor.data.values()))
+        if len(lens) > 1:
+            # inside the callback the stored series must already be aligned (same length for every probe and the time)
+            self.hub.tlog.append(('series_misaligned', sensor.name, time, {str(k if isinstance(k, str) else 'probe'): len(v)
+                                                                             for k, v in sensor.data.items()}))
         self.hub.tlog.append(('sense_cb', sensor.name, self.n, time, copy.deepcopy(values)))
 
 
@@ -543,8 +591,9 @@ class LineWorld:
             o = self.groups[d['group']].get_new_group_path(name, up)
         elif k == 'maintainer':
             c = d.get('capacity')
-            o = Maintainer(name, INF if c is None else c, d.get('value', 0))
-            self.maintainer = o
+            o = Maintainer(d.get('asset_name', name), INF if c is None else c, d.get('value', 0))
+            if not d.get('spare'):
+                self.maintainer = o
         elif k in ('obj', 'scheduler', 'psensor', 'osensor', 'cms'):
             o = self.make_aux(d)
         else:
@@ -576,9 +625,15 @@ class LineWorld:
         if k == 'obj':
             return SchedObj(name)
         if k == 'scheduler':
-            o = HScheduler([tuple(x) for x in d['schedule']], name, d.get('cyclical', True), hub=self.hub)
+            mine = [tuple(x) for x in d['schedule']]
+            o = HScheduler(mine, name, d.get('cyclical', True), hub=self.hub)
+            mine.append((1, 'appended by the caller afterwards'))      # the caller re-uses its list: no effect allowed
+            mine[0] = (99, 'edited by the caller afterwards')
             for tgt, mode in d.get('targets', []):
-                o.register_object(self.dev[tgt], None if mode == 'default' else OverrideAction(self.hub))
+                if mode == 'creator':
+                    o.register_object(self.dev[tgt], CreatorAction(self, d['creates']))
+                else:
+                    o.register_object(self.dev[tgt], None if mode == 'default' else OverrideAction(self.hub))
             return o
         if k in ('psensor', 'osensor'):
             cap = d.get('data_capacity')
@@ -867,8 +922,8 @@ class LineWorld:
             self._leave()
 
     # ------------------------------------------------------------------ ops
-    def run_op(self, i):
-        op = self.ops[i]
+    def run_op(self, i, direct=False):
+        op = tuple(i) if direct else self.ops[i]
         k = op[0]
         env = self.env
         hub = self.hub
@@ -921,6 +976,12 @@ class LineWorld:
                 hub.tlog.append(('created', d['name'], d['kind'], env.now))
                 for m in self.monitors:
                     m.created(self, d, env.now)
+        elif k == 'requal':
+            d_ = self.dev[op[1]]
+            it = d_._output if d_._output is not None else d_._part
+            if it is not None:
+                it.quality = op[2]           # the waiting part is re-graded (e.g. an inspection result)
+                hub.tlog.append(('requal', op[1], it.id, op[2]))
         elif k == 'addvalue':
             self.dev[op[1]].add_value('booking', op[2])
             hub.tlog.append(('addvalue', op[1], op[2]))
@@ -931,6 +992,7 @@ class LineWorld:
             o = self.dev[op[1]]
             o.x[0] += 1           # in place: a sensor that stored a reference instead of a copy is exposed
             o.n += 1
+            o.r.v += 1
         else:
             raise HarnessError(f'unknown op {op}')
 
